@@ -17,6 +17,7 @@ func registerVerifAPI(e *Engine) {
 		in.inputs = append(in.inputs, Input{Kind: "int", W: w, Sgn: sgn, T: t, Label: label})
 		return t
 	}
+	v("Cleanup", func(in *Interp, fr *frame, fn *ssa.Function, a []Val) Val { return nil })
 	v("ClockAlign", func(in *Interp, fr *frame, fn *ssa.Function, a []Val) Val { return nil })
 	v("Tier", func(in *Interp, fr *frame, fn *ssa.Function, a []Val) Val { return in.ctx.Const(64, uint64(in.W.Cfg.Tier)) })
 	v("Symbolic", func(in *Interp, fr *frame, fn *ssa.Function, a []Val) Val { return in.ctx.True })
